@@ -183,7 +183,7 @@ def handle (st : St) (seq : String) (f : List String) : St × List String :=
       -- monitor: a found price is positive, on the tick grid and between the lowest sell and the highest buy price
       let pm := match findMatchPrice (makeView b) prec with
         | none => []
-        | some a => if monMatchPrice (makeView b) prec a then [] else [s!"MON\t{seq}\tmatch_price_in_spread"]
+        | some a => if monMatchPrice (makeView b) prec a then [] else [s!"MON\t{seq}\tfound_price_in_spread"]
       let (st', out) := match matchFirstBatch b prec with
         | .panic => finish st seq s!"{mf}\tpanic\t-" none s!"{fmp}\t{outcome}\t{qcd}" outcome qcd res
         | .noMatch => finish st seq s!"{mf}\tnomatch\t-" none s!"{fmp}\t{outcome}\t{qcd}" outcome qcd res
@@ -198,8 +198,8 @@ def handle (st : St) (seq : String) (f : List String) : St × List String :=
       let d := if m = r then [] else [s!"DIFF\t{seq}\tmodel={m}\timpl={r}"]
       -- the monitor is evaluated on the REAL answer
       let mon := match parseInt? r with
-        | some a => if monMatchPrice v prec a then [] else [s!"MON\t{seq}\tmatch_price_in_spread"]
-        | none => if r = "none" && monCrossing v then [s!"MON\t{seq}\tmatch_price_found_iff_crossing"] else []
+        | some a => if monMatchPrice v prec a then [] else [s!"MON\t{seq}\tfound_price_in_spread"]
+        | none => if r = "none" && monCrossing v then [s!"MON\t{seq}\tfound_price_iff_crossing"] else []
       (st, d ++ mon)
   | ["amm.fmpx", prec, r] =>
     match parseNat? prec with
